@@ -11,6 +11,8 @@ from pvc.expr_eval import ExprMixin
 from pvc.calls import CallMixin
 from pvc.builtins_model import BuiltinMixin
 from pvc.stmts import StmtMixin
+from pvc.event import EventMixin
+from pvc import event as eventmod
 from pvc.world import func_source_hash
 
 QUICK_MS = 250
@@ -81,7 +83,7 @@ def _has_quant(e, budget=[0]):
   return any(_has_quant(c) for c in e.children())
 
 
-class Exec(SpecMixin, ExprMixin, CallMixin, BuiltinMixin, StmtMixin):
+class Exec(SpecMixin, ExprMixin, CallMixin, BuiltinMixin, StmtMixin, EventMixin):
 
   def __init__(self, world, contract, mode=None):
     self.world = world
@@ -126,6 +128,11 @@ class Exec(SpecMixin, ExprMixin, CallMixin, BuiltinMixin, StmtMixin):
       self.n_pruned += 1
       return False
     return True
+
+  def truth(self, v, st):
+    if self.mode == 'event':
+      return self.truth_event(v, st)
+    return truthy(v, st)
 
   def spec_ctx(self, st):
     cx = SpecCtx(st.env, st.heap, st.pc, None, self.cur_mod)
@@ -487,12 +494,126 @@ def _by_solver(obs):
   return d
 
 
+def verify_event(world, contract, res, timeout_ms):
+  """Trace equivalence of the real function with its specification program."""
+  mi = world.module(contract.module)
+  res.source_sha = mi.sha256
+  node = mi.find(contract.local_name)
+  if node is None:
+    raise SpecError('target %s not found' % contract.name)
+  res.func_hash = func_source_hash(node)
+  core.reset_fresh()
+  impl = eventmod.run_event(world, contract, node, mi, Exec)
+  spec_node = eventmod.parse_spec_program(contract.spec)
+  spec = eventmod.run_event(world, contract, spec_node, mi, Exec,
+                            shared=(impl.param_values, impl.entry_heap, list(impl.requires_hyps), impl))
+  res.paths = impl.n_paths
+  if not impl.segments:
+    res.status = 'error'
+    res.message = 'no segment produced (vacuous)'
+    return res
+  # the iterator handle / callback results of loop k are shared between the sides by loop label; loop
+  # labels are assigned in order of first encounter, so try every matching of the two label sets
+  import itertools
+  ni, ns = len(impl.event_loop_ids), len(spec.event_loop_ids)
+  best = None
+  perms = list(itertools.permutations(range(ns))) if ni == ns and ns <= 3 else [tuple(range(ns))]
+  for perm in perms:
+    obs = []
+
+    def oblige(name, hyps, goal, detail, obs=obs):
+      obs.append(Obligation(name, hyps, goal, detail))
+    mapping = {j: perm[j] for j in range(ns)}
+    eventmod.compare(impl.segments, rename_loop_symbols(eventmod.relabel(spec.segments, mapping), mapping), oblige)
+    for ob in obs:
+      discharge(ob, timeout_ms)
+    bad = sum(1 for o in obs if o.status != 'proved')
+    if best is None or bad < best[0]:
+      best = (bad, obs)
+    if bad == 0:
+      break
+  obs = best[1] + impl.obligations      # + safety obligations met on the way
+  for ob in impl.obligations:
+    discharge(ob, timeout_ms)
+  res.obligations = obs
+  if not obs:
+    res.status = 'error'
+    res.message = 'zero obligations generated (vacuous)'
+    return res
+  if all(o.status == 'proved' for o in obs):
+    res.status = 'proved'
+  elif any(o.status == 'refuted' for o in obs):
+    res.status = 'refuted'
+  else:
+    res.status = 'undecided'
+    res.message = 'solver returned unknown on: ' + ', '.join(o.name for o in obs if o.status == 'unknown')
+  return res
+
+
+def rename_loop_symbols(segments, mapping):
+  """Symbols named after a loop label (callback results, iterator handles) follow the relabelling."""
+  if all(k == v for k, v in mapping.items()):
+    return segments
+  import re
+  cache = {}
+
+  def ren(t):
+    if not z3.is_expr(t):
+      return t
+    key = t.get_id()
+    if key in cache:
+      return cache[key]
+    subs = []
+    for c in _consts_of(t):
+      nm = c.decl().name()
+      m = re.search(r'head:(\d+)', nm)
+      if m and int(m.group(1)) in mapping:
+        new = nm.replace('head:%s' % m.group(1), 'head:%d' % mapping[int(m.group(1))])
+        subs.append((c, z3.Const(new, c.sort())))
+    r = z3.substitute(t, *subs) if subs else t
+    cache[key] = r
+    return r
+  out = []
+  for s in segments:
+    tr = []
+    for e in s.trace:
+      e2 = ops.Event(e.kind, ren(e.fn) if z3.is_expr(e.fn) else e.fn, [ren(a) for a in e.args],
+                     {k: ren(v) for k, v in e.kwargs.items()},
+                     ren(e.star) if e.star is not None else None, ren(e.dstar) if e.dstar is not None else None)
+      tr.append(e2)
+    end = s.end
+    if end[0] == 'exit':
+      end = (end[0], end[1], ren(end[2]) if end[2] is not None else None)
+    else:
+      end = (end[0], end[1], [ren(x) for x in end[2]])
+    out.append(eventmod.Segment(s.start, [ren(p) for p in s.pc], tr, end))
+  return out
+
+
+def _consts_of(t, acc=None, seen=None):
+  acc = [] if acc is None else acc
+  seen = set() if seen is None else seen
+  if t.get_id() in seen:
+    return acc
+  seen.add(t.get_id())
+  if z3.is_const(t) and t.decl().kind() == z3.Z3_OP_UNINTERPRETED:
+    acc.append(t)
+  elif z3.is_quantifier(t):
+    _consts_of(t.body(), acc, seen)
+  else:
+    for c in t.children():
+      _consts_of(c, acc, seen)
+  return acc
+
+
 def verify_contract(world, contract, timeout_ms=60000):
   """Generate and discharge all obligations of one function. Never raises."""
   res = FunctionResult(contract.name)
   t0 = time.time()
   core.reset_fresh()
   try:
+    if contract.mode == 'event':
+      return verify_event(world, contract, res, timeout_ms)
     ex = Exec(world, contract)
     mi = world.module(contract.module)
     res.source_sha = mi.sha256
